@@ -27,6 +27,12 @@ pub trait Entry {
     fn borrows_from<'a>(_v: &Self::Val<'a>, _input: &'a [u8]) -> bool { true }
 }
 
+/// Hash of an encoding for the distinct-case count; hash-randomised collections serialise in a per-process
+/// order, so their bytes are hashed order-independently (keeps the evidence a function of the seed).
+pub fn stable_hash<E: Entry>(bytes: &[u8]) -> u64 {
+    if E::UNORDERED { let mut s = bytes.to_vec(); s.sort_unstable(); vcore::engine::hash_of(&(E::NAME, s)) } else { vcore::engine::hash_of(&(E::NAME, bytes)) }
+}
+
 pub fn within(p: *const u8, len: usize, input: &[u8]) -> bool {
     if len == 0 { return true }
     let a = input.as_ptr() as usize;
@@ -130,34 +136,50 @@ owned!(ETuple3, "(bool,i64,f32)", (bool, i64, f32));
 owned!(ETuple4, "(u64,Option<i8>,char,ByteVec)", (u64, Option<i8>, char, ByteVec));
 owned!(ETuple12, "12-tuple", (u8, i8, u16, i16, u32, i32, u64, i64, bool, char, f32, Option<u8>));
 
-pub type Tup16 = (u8, i8, u16, i16, u32, i32, u64, i64, bool, char, f32, f64, String, Option<u8>, (), Int);
-/// 16-tuples have no `Debug` impl in std; wrap to provide one while delegating the codec traits.
-#[derive(Clone)]
-pub struct T16(pub Tup16);
-impl Debug for T16 {
-    fn fmt(&self, f: &mut std::fmt::Formatter<'_>) -> std::fmt::Result {
-        let t = &self.0;
-        write!(f, "({:?}, {:?}, {:?}, {:?}, {:?}, {:?}, {:?}, {:?}, {:?}, {:?}, {:?}, {:?}, {:?}, {:?}, {:?}, {:?})",
-               t.0, t.1, t.2, t.3, t.4, t.5, t.6, t.7, t.8, t.9, t.10, t.11, t.12, t.13, t.14, t.15)
+/// Tuples above arity 12 have no `Debug` impl in std; wrap them to provide one while delegating the codec traits.
+macro_rules! big_tuple {
+    ($entry:ident, $wrap:ident, $alias:ident, $name:expr, ($($t:ty),+), ($($i:tt),+)) => {
+        pub type $alias = ($($t,)+);
+        #[derive(Clone)]
+        pub struct $wrap(pub $alias);
+        impl Debug for $wrap {
+            fn fmt(&self, f: &mut std::fmt::Formatter<'_>) -> std::fmt::Result {
+                f.write_str("(")?;
+                $( write!(f, "{:?}, ", self.0.$i)?; )+
+                f.write_str(")")
+            }
+        }
+        impl<C> Encode<C> for $wrap {
+            fn encode<W: minicbor::encode::Write>(&self, e: &mut minicbor::Encoder<W>, ctx: &mut C) -> Result<(), minicbor::encode::Error<W::Error>> { self.0.encode(e, ctx) }
+        }
+        impl<'b, C> Decode<'b, C> for $wrap {
+            fn decode(d: &mut minicbor::Decoder<'b>, ctx: &mut C) -> Result<Self, minicbor::decode::Error> { Ok($wrap(Decode::decode(d, ctx)?)) }
+        }
+        impl<C> CborLen<C> for $wrap { fn cbor_len(&self, ctx: &mut C) -> usize { self.0.cbor_len(ctx) } }
+        pub struct $entry;
+        impl Entry for $entry {
+            const NAME: &'static str = $name;
+            type Seed = $alias;
+            type Val<'a> = $wrap;
+            fn seed(g: &mut Gen) -> $alias { <$alias>::arb(g) }
+            fn view<'a>(s: &'a $alias) -> $wrap { $wrap(s.clone()) }
+            fn same<'a, 'b>(a: &$wrap, b: &$wrap) -> bool { Same::same(&a.0, &b.0) }
+            fn model<'a>(v: &$wrap) -> Option<Item> { Model::model(&v.0) }
+        }
     }
 }
-impl<C> Encode<C> for T16 {
-    fn encode<W: minicbor::encode::Write>(&self, e: &mut minicbor::Encoder<W>, ctx: &mut C) -> Result<(), minicbor::encode::Error<W::Error>> { self.0.encode(e, ctx) }
-}
-impl<'b, C> Decode<'b, C> for T16 {
-    fn decode(d: &mut minicbor::Decoder<'b>, ctx: &mut C) -> Result<Self, minicbor::decode::Error> { Ok(T16(Decode::decode(d, ctx)?)) }
-}
-impl<C> CborLen<C> for T16 { fn cbor_len(&self, ctx: &mut C) -> usize { self.0.cbor_len(ctx) } }
-pub struct ETuple16;
-impl Entry for ETuple16 {
-    const NAME: &'static str = "16-tuple";
-    type Seed = Tup16;
-    type Val<'a> = T16;
-    fn seed(g: &mut Gen) -> Tup16 { Tup16::arb(g) }
-    fn view<'a>(s: &'a Tup16) -> T16 { T16(s.clone()) }
-    fn same<'a, 'b>(a: &T16, b: &T16) -> bool { Same::same(&a.0, &b.0) }
-    fn model<'a>(v: &T16) -> Option<Item> { Model::model(&v.0) }
-}
+// every position gets its own type, so that a field written twice or two fields swapped cannot go unnoticed
+big_tuple!(ETuple13, T13, Tup13, "13-tuple", (u8, i8, u16, i16, u32, i32, u64, i64, bool, char, f32, String, Option<u8>), (0, 1, 2, 3, 4, 5, 6, 7, 8, 9, 10, 11, 12));
+big_tuple!(ETuple14, T14, Tup14, "14-tuple", (u8, i8, u16, i16, u32, i32, u64, i64, bool, char, f32, String, Option<u8>, Int), (0, 1, 2, 3, 4, 5, 6, 7, 8, 9, 10, 11, 12, 13));
+big_tuple!(ETuple15, T15, Tup15, "15-tuple", (u8, i8, u16, i16, u32, i32, u64, i64, bool, char, f32, String, Option<u8>, Int, ByteVec), (0, 1, 2, 3, 4, 5, 6, 7, 8, 9, 10, 11, 12, 13, 14));
+big_tuple!(ETuple16, T16, Tup16, "16-tuple", (u8, i8, u16, i16, u32, i32, u64, i64, bool, char, f32, f64, String, Option<u8>, (), Int), (0, 1, 2, 3, 4, 5, 6, 7, 8, 9, 10, 11, 12, 13, 14, 15));
+owned!(ETuple5, "5-tuple", (u8, String, bool, i32, Option<u16>));
+owned!(ETuple6, "6-tuple", (i8, u16, char, ByteVec, f64, u64));
+owned!(ETuple7, "7-tuple", (u8, i8, u16, i16, bool, String, u32));
+owned!(ETuple8, "8-tuple", (u64, i64, f32, char, bool, Option<i8>, String, u8));
+owned!(ETuple9, "9-tuple", (u8, i8, u16, i16, u32, i32, bool, char, String));
+owned!(ETuple10, "10-tuple", (u8, i8, u16, i16, u32, i32, u64, i64, bool, String));
+owned!(ETuple11, "11-tuple", (u8, i8, u16, i16, u32, i32, u64, i64, bool, char, String));
 owned!(EArr0, "[u8;0]", [u8; 0], INDEF_OK = true);
 owned!(EArr1, "[u8;1]", [u8; 1], INDEF_OK = true);
 owned!(EArr3, "[u16;3]", [u16; 3], INDEF_OK = true);
@@ -315,7 +337,7 @@ macro_rules! for_each_entry {
             $mac!(EByteVec), $mac!(ERefByteSlice), $mac!(ECowByteSlice), $mac!(EByteArray0), $mac!(EByteArray4), $mac!(EByteArray32),
             $mac!(ECString), $mac!(ERefCStr), $mac!(EPathBuf), $mac!(ERefPath), $mac!(EBoxPath),
             $mac!(EOptU8), $mac!(EOptString), $mac!(EOptVecU8), $mac!(EOptTuple), $mac!(EResU8String), $mac!(EResIntByteVec), $mac!(EBoxU64), $mac!(EBoxVecU16),
-            $mac!(EUnit), $mac!(EPhantom), $mac!(ETuple1), $mac!(ETuple2), $mac!(ETuple3), $mac!(ETuple4), $mac!(ETuple12), $mac!(ETuple16),
+            $mac!(EUnit), $mac!(EPhantom), $mac!(ETuple1), $mac!(ETuple2), $mac!(ETuple3), $mac!(ETuple4), $mac!(ETuple5), $mac!(ETuple6), $mac!(ETuple7), $mac!(ETuple8), $mac!(ETuple9), $mac!(ETuple10), $mac!(ETuple11), $mac!(ETuple12), $mac!(ETuple13), $mac!(ETuple14), $mac!(ETuple15), $mac!(ETuple16),
             $mac!(EArr0), $mac!(EArr1), $mac!(EArr3), $mac!(EArrOpt3), $mac!(EArrStr2), $mac!(EArr32), $mac!(EArrVec2),
             $mac!(EVecU8), $mac!(EVecU64), $mac!(EVecString), $mac!(EVecOptTuple), $mac!(EVecVecI32), $mac!(EVecF64),
             $mac!(EVecDequeI16), $mac!(ELinkedListU32), $mac!(EBinaryHeapU16), $mac!(EBTreeSetI64), $mac!(EHashSetU16), $mac!(EHashSetString),
